@@ -135,11 +135,11 @@ def _get_comprehension_type(atom):
     return None
 
 
-def _is_future_import(import_from):
+def _is_future_import(import_from, version):
     # It looks like a __future__ import that is relative is still a future
-    # import. That feels kind of odd, but whatever.
-    # if import_from.level != 0:
-    #     return False
+    # import. That feels kind of odd, but whatever. Python 3.13 changed that.
+    if version >= (3, 13) and import_from.level != 0:
+        return False
     from_names = import_from.get_from_names()
     return [n.value for n in from_names] == ['__future__']
 
@@ -204,7 +204,7 @@ def _iter_params(parent_node):
     return (n for n in parent_node.children if n.type == 'param' or n.type == 'operator')
 
 
-def _is_future_import_first(import_from):
+def _is_future_import_first(import_from, version):
     """
     Checks if the import is the first statement of a file.
     """
@@ -217,7 +217,7 @@ def _is_future_import_first(import_from):
 
         if stmt == import_from:
             return True
-        if stmt.type == 'import_from' and _is_future_import(stmt):
+        if stmt.type == 'import_from' and _is_future_import(stmt, version):
             continue
         return False
 
@@ -806,8 +806,8 @@ class _FutureImportRule(SyntaxRule):
     message = "from __future__ imports must occur at the beginning of the file"
 
     def is_issue(self, node):
-        if _is_future_import(node):
-            if not _is_future_import_first(node):
+        if _is_future_import(node, self._normalizer.version):
+            if not _is_future_import_first(node, self._normalizer.version):
                 return True
 
             if node.is_star_import():
